@@ -274,10 +274,13 @@ class SourceIndex:
                         c = c.nested[rest[k]]
                         k += 1
                     tail = rest[k:]
-                    if len(tail) == 1 and tail[0] in c.methods:
-                        return c.methods[tail[0]]
-                    if len(tail) == 2 and tail[1] == 'setter' and tail[0] in c.setters:
-                        return c.setters[tail[0]]
+                    # the method that runs for this class: its own definition or the first one along the base classes (a method
+                    # hoisted into a base class is still the code under contract)
+                    for k_ in c.mro():
+                        if len(tail) == 1 and tail[0] in k_.methods:
+                            return k_.methods[tail[0]]
+                        if len(tail) == 2 and tail[1] == 'setter' and tail[0] in k_.setters:
+                            return k_.setters[tail[0]]
                 raise KeyError(f'function {qualname} not found in module {mod}')
         raise KeyError(f'function {qualname}: no module')
 
